@@ -28,7 +28,8 @@ RULE = ("exhaustive: every (upper, lower) index tuple incl. repeats over a pool 
         "of 10 (quick) / 12 (thorough) indices (occ/virt/general x spin ''/a/b, "
         "numbered names i3, j12, b2) for all rank pairs up to (2,2), classes "
         "AntiSymmetricTensor / SymmetricTensor / Amplitude, bra_ket_sym 0/1/-1 "
-        "(+ invalid 2); sampled: ranks (3,3),(3,2),(2,3),(3,1),(4,4) with every "
+        "(+ invalid 2), thorough also ranks (3,3),(3,2),(2,3) over a 6-index "
+        "sub-pool; sampled: ranks (3,3),(3,2),(2,3),(3,1),(4,4) with every "
         "permutation of upper and lower and the bra-ket swap; same-named "
         "dummies; KroneckerDelta on every ordered index pair of an 20-index "
         "pool and its powers; xreplace / subs (simultaneous and sequential) "
@@ -297,6 +298,15 @@ def stream_exhaustive(ctx, pool):
                 for l in itertools.product(dom, repeat=nl):
                     for b in (0, 1, -1):
                         yield kind, b, u, l
+    if ctx.tier != "quick":
+        # rank 3 exhaustively over a 6-index sub-pool
+        sub = [0, 1, 2, 4, 6, 8]
+        for kind in ("KAnti", "KSym"):
+            for (nu, nl) in ((3, 3), (3, 2), (2, 3)):
+                for u in itertools.product(sub, repeat=nu):
+                    for l in itertools.product(sub, repeat=nl):
+                        for b in (0, 1, -1):
+                            yield kind, b, u, l
 
 
 def stream_sampled(ctx, pool):
@@ -389,6 +399,7 @@ def run_constructors(ctx, pool):
     batch = Batch(ctx, "ctor", "run", pool)
     results = []
     seen = set()
+    nsmp = 0
     for stream, label in ((stream_exhaustive, "exh"),
                           (stream_sampled, "smp")):
         for kind, b, u, l in stream(ctx, pool):
@@ -401,10 +412,15 @@ def run_constructors(ctx, pool):
             batch.add(coq_case(kind, b, u, l), e, key)
             canonical = (e[1][0] == 1 and e[1][1] == 0 and
                          tuple(e[1][5:]) == tuple(u) + tuple(l))
-            ctx.case(key=key, nontrivial=not canonical,
-                     sample=({"call": show(kind, b, u, l, pool),
-                              "result": str(e)} if len(u) + len(l) >= 4
-                             else None),
+            smp = None
+            if nsmp < 6 and e[1][0] == 1 and e[1][1] == 1 and b != 0 \
+                    and len(u) + len(l) >= 4 and len(seen) % 997 == 0:
+                nsmp += 1
+                smp = {"call": show(kind, b, u, l, pool),
+                       "result": ("-" if e[1][1] else "+") + show(
+                           KNAME[e[1][2]], e[1][3], e[1][5:5 + e[1][4]],
+                           e[1][5 + e[1][4]:], pool)}
+            ctx.case(key=key, nontrivial=not canonical, sample=smp,
                      kind=f"{label}:{kind}:{len(u)},{len(l)}:bks{b}")
     # invalid bra_ket_sym
     for kind in KINDS:
@@ -612,6 +628,7 @@ def run_subs(ctx, pool, results):
     b_sim = Batch(ctx, "subs_sim", "run_sub", pool)
     b_seq = Batch(ctx, "subs_seq", "run_seq", pool)
     bad_sim = []
+    nsmp = 0
     for _ in range(nsub):
         kind, b, u, l, (_, e) = rng.choice(canon)
         nu = e[4]
@@ -650,11 +667,13 @@ def run_subs(ctx, pool, results):
         except (Inputerror, NotImplementedError):
             r3 = ("", [2])
         b_seq.add(case, r3, (kind, b, tuple(cu), tuple(cl), tuple(pairs)))
+        smp = None
+        if nsmp < 3 and r1 != r3 and r1[1][0] == 1:
+            nsmp += 1
+            smp = {"tensor": show(kind, b, cu, cl, pool), "map": str(mp),
+                   "xreplace": str(r1), "sequential subs": str(r3)}
         ctx.case(key=("subs", kind, b, tuple(cu), tuple(cl), tuple(pairs)),
-                 nontrivial=True, kind=f"subs:{kind}",
-                 sample={"tensor": show(kind, b, cu, cl, pool),
-                         "map": str(mp), "xreplace": str(r1),
-                         "sequential": str(r3)})
+                 nontrivial=True, kind=f"subs:{kind}", sample=smp)
     if not ctx.obligation("xreplace = subs(simultaneous=True)", not bad_sim,
                           str(bad_sim[:2])):
         ctx.violation(f"C06:subs-sim-vs-xreplace:{bad_sim[0][0]}",
@@ -923,16 +942,21 @@ def run_assumptions(ctx, pool):
         if both:
             continue   # declared symmetric and antisymmetric: raises later
         # ---- idempotence ----
-        E2 = Expr(out, real=real, sym_tensors=list(syms),
-                  antisym_tensors=list(antis))
-        idem = (E2.sympy == out)
-        E3 = Expr(out, real=real, sym_tensors=list(syms),
-                  antisym_tensors=list(antis))
-        E3.set_sym_tensors(list(syms))
-        E3.set_antisym_tensors(list(antis))
-        if real:
-            E3.make_real()
-        idem = idem and E3.sympy == out
+        second = None
+        try:
+            E2 = Expr(out, real=real, sym_tensors=list(syms),
+                      antisym_tensors=list(antis))
+            second = E2.sympy
+            idem = (second == out)
+            E3 = Expr(out, real=real, sym_tensors=list(syms),
+                      antisym_tensors=list(antis))
+            E3.set_sym_tensors(list(syms))
+            E3.set_antisym_tensors(list(antis))
+            if real:
+                E3.make_real()
+            idem = idem and E3.sympy == out
+        except (Inputerror, NotImplementedError) as ex:
+            idem, second = False, f"raises {type(ex).__name__}"
         shape = real and any(
             atom[0] == "T" and is_t_amp(atom[2])
             and real_name(atom[2]) != atom[2]
@@ -941,7 +965,7 @@ def run_assumptions(ctx, pool):
             for c, facs in terms_in for atom, inv in facs)
         if not ctx.obligation(f"assume {label}: applying the assumptions "
                               "twice = once", idem,
-                              f"{out} -> {E2.sympy}"):
+                              f"{out} -> {second}"):
             if label == "probe-idem":
                 ctx.violation(
                     IDEM_KEY,
@@ -950,7 +974,7 @@ def run_assumptions(ctx, pool):
                     "again gives t1^i_a (bra_ket_sym 1): the symmetry is "
                     "applied before the cc-amplitude is renamed",
                     {"expr": str(e), "first": str(out),
-                     "second": str(E2.sympy),
+                     "second": str(second),
                      "theorem": "C06_assumptions_idempotent_refuted"}, True)
             elif not shape:
                 ctx.violation(f"C06:assume-idempotent:{label}:{e}",
@@ -958,7 +982,7 @@ def run_assumptions(ctx, pool):
                               "applying them once",
                               {"expr": str(e), "real": real, "sym": syms,
                                "antisym": antis, "first": str(out),
-                               "second": str(E2.sympy)}, True)
+                               "second": str(second)}, True)
             else:
                 ctx.note(f"{label}: further instance of {IDEM_KEY}")
         # ---- alternative path: setters ----
